@@ -120,13 +120,19 @@ class HarnessError(Exception):
     pass
 
 
+BUILD_TIME = [0.0]   # seconds spent building; not charged to a check's exploration budget
+
+
 def vjanet(variant="fast"):
+    t = time.time()
     try:
         return _build.get(variant)
     except _build.BuildError as e:
         sys.stderr.write("BUILD FAILED (exit 2)\n%s\n" % e)
         sys.stdout.flush()
         os._exit(2)
+    finally:
+        BUILD_TIME[0] += time.time() - t
 
 
 def base_env(extra=None):
@@ -380,7 +386,7 @@ class Check:
 
     # -- time
     def elapsed(self):
-        return time.time() - self.t0
+        return time.time() - self.t0 - BUILD_TIME[0]
 
     def out_of_time(self, frac=1.0):
         return self.elapsed() > self.budget * frac
